@@ -683,6 +683,15 @@ def collect(ctx, prop):
             sw = sw[:60]
         for i, sc_ in enumerate(sw):
             scen.append({"id": "c18sweep-%d" % i, "cfg": cfg0, "conns": [{"c": 1, "addr": "10.1.0.5"}], "steps": session_steps(1, 0, sc_, fl=rng.choice([0, 1])), "iso": False, "log": True})
+    if prop == "C18":
+        # logins whose credential check takes more than a second (bcrypt cost 14), PAP and ASCII, right and wrong password
+        cfg1 = base_cfg(rng, tag)
+        slowpw = "vvslow-" + tag
+        for u in cfg1["users"]:
+            if u["name"] == "alice" and "s1" in u["scopes"]:
+                u["auth"] = auth(slowpw)
+        for i, sc_ in enumerate([pap_login("alice", slowpw), ascii_login("alice", slowpw), pap_login("alice", slowpw + "x")][: (1 if quick else 3)]):
+            scen.append({"id": "c18slow-%d" % i, "cfg": cfg1, "conns": [{"c": 1, "addr": "10.1.0.5"}], "steps": session_steps(1, 0, sc_, fl=0), "iso": False, "log": True})
     mcinfo = None
     if prop in ("C07", "C09", "C10", "C14", "C18"):
         r0, mcs, mctotal = mc_ref_scenarios(ctx, rng, prop, 600 if quick else 20000)
